@@ -41,6 +41,21 @@ spec fn has_pred(g: Map<Ustr, UstrMap<HumanSpan>>, x: Ustr) -> bool {
     exists|u: Ustr| edge(g, u, x)
 }
 
+/// k is one of the first n keys of a key list
+spec fn key_among(ks: Seq<&Ustr>, n: int, k: Ustr) -> bool {
+    exists|m: int| 0 <= m < n && m < ks.len() && *(#[trigger] ks[m]) == k
+}
+
+/// get_not_depended_on_nonterminals: every dependency of the first n vertices has been counted at least once
+spec fn counted_upto(es: Seq<(&Ustr, &UstrMap<HumanSpan>)>, n: int, cnt: Map<Ustr, usize>) -> bool {
+    forall|m: int, k: Ustr| 0 <= m < n && m < es.len() && #[trigger] (#[trigger] es[m]).1@.contains_key(k) ==> cnt.contains_key(k) && cnt[k] >= 1
+}
+
+/// every dependency is itself a vertex (what `refs.retain(..)` establishes)
+spec fn closed_graph(g: Map<Ustr, UstrMap<HumanSpan>>) -> bool {
+    forall|u: Ustr, v: Ustr| #[trigger] edge(g, u, v) ==> g.contains_key(v)
+}
+
 /// whatever the search added to the order was reached along an edge
 spec fn new_have_pred(g: Map<Ustr, UstrMap<HumanSpan>>, before: Seq<Ustr>, after: Seq<Ustr>) -> bool {
     forall|x: Ustr| #[trigger] in_seq(after, x) ==> in_seq(before, x) || has_pred(g, x)
